@@ -115,11 +115,11 @@ def hash_tree(path):
     return out
 
 
-def run_one(binpath, mode, idl_dir, docname, rawdocs, output_mode, outdir, seed, threads, schedule=None, trace=None):
-    """one builder process; returns (rc, {file: sha})"""
-    if os.path.exists(outdir):
+def run_one(binpath, mode, idl_dir, docname, rawdocs, output_mode, outdir, seed, threads, schedule=None, trace=None, keep=False):
+    """one builder process; returns (rc, {file: sha}); keep: generate over the files of an earlier run"""
+    if os.path.exists(outdir) and not keep:
         shutil.rmtree(outdir)
-    os.makedirs(outdir)
+    os.makedirs(outdir, exist_ok=True)
     d = rawdocs[0]
     main = os.path.join(idl_dir, d.name, d.main)
     cmd = ["setarch", "x86_64", "-R", binpath, mode]
@@ -154,7 +154,9 @@ def run_one(binpath, mode, idl_dir, docname, rawdocs, output_mode, outdir, seed,
         log = p.stdout.decode("utf8", "replace")
     except subprocess.TimeoutExpired:
         rc, log = -999, "timeout"
-    h = hash_tree(target) if rc == 0 else {}
+    # every file below the run's own output directory (split mode writes its module tree next to
+    # the main file, not below a directory named after it)
+    h = hash_tree(outdir) if rc == 0 else {}
     # the generator writes absolute paths of this run's output dir nowhere into the files; keep as is
     return rc, h, log
 
@@ -260,6 +262,8 @@ def run(tier, seed0):
             work.append((name, mode, raws, omode, "perm", hooked, 0, 1, p_))
         for s_ in seeds[: max(4, len(seeds) // 4)]:
             work.append((name, mode, raws, omode, "trace", hooked, s_, 1, None))
+        # the build.rs sequence: a second generation into the directory that holds the first one's files
+        work.append((name, mode, raws, omode, "rerun", plain, 0, 1, None))
         m["spaces"][key] = len(work) - n0
 
     # phase 2: every remaining run of every key in one pool
@@ -272,6 +276,8 @@ def run(tier, seed0):
             if os.path.exists(tr2):
                 os.remove(tr2)
         rc, h, log = run_one(binp, mode, idl_dir, name, raws, omode, out, s_, t, schedule=p_, trace=tr2)
+        if kind == "rerun" and rc == 0:
+            rc, h, log = run_one(binp, mode, idl_dir, name, raws, omode, out, s_, t, keep=True)
         nat = None
         if tr2 and os.path.exists(tr2):
             lines = [l for l in open(tr2).read().splitlines() if l.startswith("mods")]
@@ -301,7 +307,7 @@ def run(tier, seed0):
             outcome("differs")
             changed = sorted(set(k_ for k_ in set(h) | set(ref) if h.get(k_) != ref.get(k_)))
             what = "file-set" if set(h) != set(ref) else "contents"
-            fail("C17|%s|%s|%s-differ:%s" % (mode, omode, what, "task-order" if kind == "perm" else "hash-seed-or-threads"), case,
+            fail("C17|%s|%s|%s-differ:%s" % (mode, omode, what, "task-order" if kind == "perm" else ("second-run-into-the-same-directory" if kind == "rerun" else "hash-seed-or-threads")), case,
                  "%d of %d files differ from the reference run (seed 0, 1 thread): %s" % (len(changed), len(ref), ", ".join(changed[:4])))
         else:
             outcome("identical")
@@ -331,6 +337,10 @@ def replay(path):
     rc0, ref, _ = run_one(plain, mode, idl_dir, name, raws, c["output_mode"], os.path.join(base, "ref"), 0, 1)
     rc1, h1, _ = run_one(binp, mode, idl_dir, name, raws, c["output_mode"], os.path.join(base, "a"), c.get("seed", 0), c.get("threads", 1), schedule=c.get("schedule"))
     rc2, h2, _ = run_one(binp, mode, idl_dir, name, raws, c["output_mode"], os.path.join(base, "b"), c.get("seed", 0), c.get("threads", 1), schedule=c.get("schedule"))
+    if c.get("kind") == "rerun":
+        # second generation over the files of the first, in both scratch directories
+        rc1, h1, _ = run_one(binp, mode, idl_dir, name, raws, c["output_mode"], os.path.join(base, "a"), 0, 1, keep=True)
+        rc2, h2, _ = run_one(binp, mode, idl_dir, name, raws, c["output_mode"], os.path.join(base, "b"), 0, 1, keep=True)
     if h1 != h2:
         print("MACHINERY: the same seed/schedule gave two different outputs (nondeterminism not owned)")
         return 2
